@@ -66,11 +66,13 @@ def check(fs, want_model=False, strings_fallback=True, timeout_ms=None):
     for f in fs:
         if z3.is_false(f):
             return 'unsat', None, 'syntactic'
-    key = (tuple(sorted(f.sexpr() for f in fs)), want_model)
+    # z3 terms are hash-consed: the AST id identifies the formula while it is alive; the cache
+    # keeps a reference to the formulas so ids cannot be recycled
+    key = (tuple(sorted(f.get_id() for f in fs)), want_model)
     stats['queries'] += 1
     if key in _cache:
         stats['cache_hits'] += 1
-        return _cache[key]
+        return _cache[key][0]
     s = z3.Solver()
     s.set('timeout', timeout_ms or Z3_MS)
     s.set('random_seed', SEED)
@@ -94,7 +96,7 @@ def check(fs, want_model=False, strings_fallback=True, timeout_ms=None):
                 out = (v, rest if v == 'sat' else None, 'cvc5')
         if out[0] == 'unknown':
             stats['unknown'] += 1
-    _cache[key] = out
+    _cache[key] = (out, fs)
     return out
 
 
